@@ -31,6 +31,7 @@ type LockStep struct {
 	AfterFinal func(r *Run, m *Model)
 	// SkipVars disables the final variable comparison.
 	SkipVars bool
+	trial    *[][2]string
 	// CompletionShape is appended to the signatures of the completion clauses.
 	CompletionShape string
 	// Ctx, if set, gives the enclosing-block context of a node id; it is appended to the
@@ -155,7 +156,38 @@ func (ls *LockStep) fail(clause, format string, a ...any) {
 	if ls.CompletionShape != "" {
 		sig += "#" + ls.CompletionShape
 	}
+	if ls.trial != nil {
+		*ls.trial = append(*ls.trial, [2]string{sig, fmt.Sprintf(format, a...)})
+		return
+	}
 	h.Fail(sig, format, a...)
+}
+
+// try runs a check against one model without emitting its violations.
+func (ls *LockStep) try(f func()) [][2]string {
+	var got [][2]string
+	ls.trial = &got
+	f()
+	ls.trial = nil
+	return got
+}
+
+func emit(fs [][2]string) {
+	for _, f := range fs {
+		h.Fail(f[0], "%s", f[1])
+	}
+}
+
+func hasOrJoin(g *Graph) bool {
+	for _, n := range g.Nodes {
+		if n.Kind == OR && (len(n.In) > 1 || len(n.Out) == 1) {
+			return true
+		}
+		if n.Inner != nil && hasOrJoin(n.Inner) {
+			return true
+		}
+	}
+	return false
 }
 
 func (ls *LockStep) shape(taskID string) string {
@@ -260,28 +292,59 @@ func (ls *LockStep) Body() func() {
 		if mg == nil {
 			mg = ls.G
 		}
-		m := NewModel(mg, ls.Vars)
+		// The property gives inclusive joins a window: no earlier than BPMN's rule, no later than
+		// when every token of the fork activation has arrived or ended elsewhere. Two models bound
+		// it; the implementation must agree with at least one of them at every quiescent state.
+		models := []*Model{NewModel(mg, ls.Vars)}
+		if hasOrJoin(mg) {
+			late := NewModel(mg, ls.Vars)
+			late.Late = true
+			models = append(models, late)
+		}
 		// WaitUntilComplete is only meaningful once StartAll has been called (the completion
 		// monitor takes the completion lock inside StartAll): the waiter is issued right after
 		// StartAll returns, concurrently with everything the instance does from then on.
 		var w *Wait
 		r.AfterStart = func() { w = r.WaitComplete(nil) }
 		r.StartAll()
-		m.StartAll()
+		for _, m := range models {
+			m.StartAll()
+		}
 		max := ls.MaxAnswers
 		if max == 0 {
 			max = 64
 		}
 		var history []string
+		dump := func() {
+			verifrt.Log("vars=%v", ls.Vars)
+			for _, s := range r.Stream {
+				verifrt.Log("trace %s", s)
+			}
+		}
 		for step := 0; ; step++ {
 			verifrt.WaitIdle()
-			if !ls.Compare(r, m, history) {
-				verifrt.Log("vars=%v", ls.Vars)
-				for _, s := range r.Stream {
-					verifrt.Log("trace %s", s)
-				}
+			if len(r.Grammar) > 0 {
+				h.Fail("C09/engine/causal-order", "%s (history %v)", r.Grammar[0], history)
+				dump()
 				return
 			}
+			var alive []*Model
+			var lastFail [][2]string
+			for _, m := range models {
+				fs := ls.try(func() { ls.Compare(r, m, history) })
+				if len(fs) == 0 {
+					alive = append(alive, m)
+				} else {
+					lastFail = fs
+				}
+			}
+			if len(alive) == 0 {
+				emit(lastFail)
+				dump()
+				return
+			}
+			models = alive
+			m := models[0]
 			if len(m.Pending) == 0 {
 				break
 			}
@@ -291,32 +354,40 @@ func (ls *LockStep) Body() func() {
 			ids := distinct(m.PendingIDs())
 			id := ids[verifrt.Choose(len(ids))]
 			pt := r.Pending(id)
-			idx := -1
-			for i, t := range m.Pending {
-				if t.At.ID == id {
-					idx = i
-					break
-				}
-			}
 			var res map[string]any
-			if ls.Answer != nil {
-				res = ls.Answer(id, m.Pending[idx].Visit, m.Vars)
+			for _, mm := range models {
+				idx := -1
+				for i, t := range mm.Pending {
+					if t.At.ID == id {
+						idx = i
+						break
+					}
+				}
+				if ls.Answer != nil && res == nil {
+					res = ls.Answer(id, mm.Pending[idx].Visit, mm.Vars)
+				}
+				mm.Answer(idx, res)
 			}
 			history = append(history, id)
-			m.Answer(idx, res)
 			if res != nil {
 				r.Answer(pt, bpmn.DoWithResults(res))
 			} else {
 				r.Answer(pt)
 			}
 		}
-		nf := verifrt.NFails()
-		ls.Final(r, m, w, history)
-		if verifrt.NFails() > nf {
-			verifrt.Log("vars=%v", ls.Vars)
-			for _, s := range r.Stream {
-				verifrt.Log("trace %s", s)
+		var lastFail [][2]string
+		ok := false
+		for _, m := range models {
+			fs := ls.try(func() { ls.Final(r, m, w, history) })
+			if len(fs) == 0 {
+				ok = true
+				break
 			}
+			lastFail = fs
+		}
+		if !ok {
+			emit(lastFail)
+			dump()
 		}
 	}
 }
